@@ -63,22 +63,19 @@ def parent_of_difference(a, b, path=("root",)):
 
 
 def _sparse_bins(obj, chain):
-    """Number of bins of the outermost sparse container on the path `chain` (types from the root down) in a real object."""
+    """Does the innermost sparse container on the path `chain` (types from the root down to the node that differs) hold
+    any bin in this real object? Only there can the two sides' children meet (or be validated against a template)."""
     from ..invariants import _kids
 
-    node = obj
     types = list(chain[1:])
-    for i, t in enumerate(types):
-        if node.name != t:
-            return 0
-        if t in ("SparselyBin", "Categorize"):
-            return len(node.bins)
-        nxt = types[i + 1] if i + 1 < len(types) else None
-        kids = [k for _, k in _kids(node) if k.name == nxt]
-        if not kids:
-            return 0
-        node = kids[0]
-    return 0
+    sparse_levels = [i for i, t in enumerate(types) if t in ("SparselyBin", "Categorize")]
+    if not sparse_levels:
+        return 0
+    last = sparse_levels[-1]
+    level = [obj] if obj.name == types[0] else []
+    for i in range(last):
+        level = [k for n in level for _, k in _kids(n) if k.name == types[i + 1]]
+    return sum(len(n.bins) for n in level)
 
 
 def _own(n):
@@ -142,13 +139,14 @@ def check_merge(sa, sb, ha, hb, label, reload_right=False):
         oa = dict(args, op=op)
         if raised is None:
             lab = "type" if label.startswith("type:") else label
+            under_ = under
             if sparse_above:
                 # with bins on the right there is something to compare with this side's template (or bins): a silent merge is
                 # then a different - and unlisted - matter than two sides that have nothing to compare
                 right = b if op in ("a+b", "a+=b") else a
                 if _sparse_bins(right, chain) and "no shared key" in under:
-                    under = under.replace("no shared key", "bins on the right but no shared key")
-            out.append(FW.violation(PROP, "merge", "%s under %s" % (opname, under) if sparse_above else
+                    under_ = under.replace("no shared key", "bins on the right but no shared key")
+            out.append(FW.violation(PROP, "merge", "%s under %s" % (opname, under_) if sparse_above else
                                     "%s at %s [%s]" % (opname, under, lab),
                                     "merged-silently", oa, {"chain": list(chain)}))
             continue
